@@ -169,6 +169,11 @@ int main(int argc, char** argv)
       if (mode == "owner") {
         sb = std::make_unique<rlbox_sandbox<Sbx>>();
         sb->create_sandbox();
+        // an earlier incarnation of this sandbox object had another size, and the application asked
+        // for it: the limit of the tokens follows the address range of the CURRENT incarnation
+        (void)sb->get_total_memory();
+        sb->destroy_sandbox();
+        sb->create_sandbox();
         sb->get_sandbox_impl()->reported_total = max + 1;
         // a second live sandbox of the same type that never registers anything: a token issued by
         // the first one means nothing to it
